@@ -452,6 +452,35 @@ func main() {
 			R.Run("PublicKey.Equal", "equalmatrix", mc.D{"a": lib.PtHex(a.P), "b": lib.PtHex(b.P)})
 		}
 	}
+	// key generation from the system entropy source: valid, consistent, not repeating
+	var gen [][]byte
+	for i := 0; i < 4; i++ {
+		k, err := secec.GenerateKey()
+		R.T(1)
+		if err != nil {
+			R.Fail("GenerateKey", "misc", map[string]any{"err": err.Error()}, nil)
+			continue
+		}
+		dv := ref.OS2IP(k.Bytes())
+		if dv.Sign() == 0 || dv.Cmp(ref.N) >= 0 {
+			R.Fail("GenerateKey/range", "misc", map[string]any{"scalar": mc.Hex(k.Bytes())}, nil)
+			continue
+		}
+		if m := checkPub(k.PublicKey(), ref.BaseMul(dv)); m != "" {
+			R.Fail("GenerateKey/public key", "misc", map[string]any{"mismatch": m}, nil)
+		}
+		for _, g := range gen {
+			if bytes.Equal(g, k.Bytes()) {
+				R.Fail("GenerateKey/repeats", "misc", map[string]any{"what": "two generated keys are equal"}, nil)
+			}
+		}
+		gen = append(gen, k.Bytes())
+		sk, err := bitcoin.GenerateSchnorrKey()
+		if err != nil || len(sk.PublicKey().Bytes()) != 32 || !bytes.Equal(sk.PublicKey().Bytes(), ref.B32(ref.BaseMul(ref.OS2IP(sk.Bytes())).X)) {
+			R.Fail("GenerateSchnorrKey", "misc", map[string]any{"what": "generated Schnorr key is inconsistent"}, nil)
+		}
+	}
+	R.Class("generated keys (system entropy)", 4)
 	R.Expect("ecdh/ordered key pairs", "private key candidate/accept", "private key candidate/reject", "public key string/accept", "public key string/reject", "public key string/identity (reject)", "public key string/other-curve points")
 	R.Finish()
 }
